@@ -95,6 +95,18 @@ def query_lines(p, rng, n_filters=2, dirs=(0, 1, 2, 3), unks=(0, 1, 2, 3), flink
     masks = ["-"] + [str(rng.getrandbits(64)) for _ in range(n_filters)] + ["0", str(2 ** 64 - 1), short(), short(), short(),
                                                                              plain(), plain(), reentrant()]
     out = []
+    # a filter that raises (an ordinary exception, or a StopIteration: `next(it)` on an exhausted iterator) at its
+    # first or second invocation: the call must propagate it, never return a partial answer
+    fm = rng.getrandbits(63)
+    while fm % 5 == 2 or fm % 7 == 3 or fm % 11 == 4:
+        fm += 1
+    for v in p.verts():
+        for k in (1, 2):
+            if not flinks:
+                out.append("nbrs %s %d 1 %d %d" % (v, rng.choice([0, 1, 2]), fm, k))
+            else:
+                for b in p.verts()[:2]:
+                    out.append("flinks %s %s %d 1 %d %d" % (v, b, rng.choice([0, 1]), fm, k))
     for v in p.verts():
         if not flinks:
             for d in dirs:
@@ -178,6 +190,11 @@ class C04(QueryBase):
 
     def oracle(self, real, line, out, pre):
         t = line.split()
+        if t[0] == "nbrs" and len(t) > 5:
+            f = real.filt2(real.pnat(t[4]))
+            if out.startswith("ok") and getattr(f, "count", 0) >= int(t[5]):
+                return "%s returned (%s) although its filter raised at invocation %s" % (line, out, t[5])
+            return None
         if t[0] != "nbrs" or len(t) > 5:
             return None
         v, d, u = real.pv(t[1]), int(t[2]), int(t[3])
@@ -277,6 +294,11 @@ class C09(QueryBase):
                         now = None
                     if now != pre[(id(x), id(y))]:
                         return "%s changed the links found between another pair" % line
+            return None
+        if t[0] == "flinks" and len(t) > 6:
+            f = real.filt1(real.pnat(t[5]))
+            if out.startswith("ok") and getattr(f, "count", 0) >= int(t[6]):
+                return "%s returned (%s) although its filter raised at invocation %s" % (line, out, t[6])
             return None
         if t[0] != "flinks" or len(t) > 6:
             return None
